@@ -200,9 +200,9 @@ def run(ctx):
         nmods = 36 if quick else 600
         for idx in range(nmods):
             if idx < 3:
-                kinds = list(modgen.KINDS)
+                kinds = list(modgen.KINDS) + list(modgen.REQ_MODULE_KINDS)
             else:
-                kinds = [rng.choice(modgen.KINDS) for _ in range(rng.randint(2, 9))]
+                kinds = [rng.choice(modgen.KINDS + modgen.REQ_MODULE_KINDS) for _ in range(rng.randint(2, 9))]
             jobs.append((tmp, idx, kinds, rng.choice(['functions', 'mixed']), STYLES[idx % 3], OPTIONS[(idx // 3) % len(OPTIONS)]))
         sub = common.pmap(_sub_worker, jobs)
         ns = 0
